@@ -27,7 +27,7 @@ LEVEL = META['level']
 RULE = ('a case = one (operation list, setting) execution compared with the reference execution and the model, or one operation string parsed; distinct by (list, setting) / string; '
         'non-trivial = the list has >= 2 operations and the setting pipelines or bundles')
 ASSUMPTIONS = ['tag state is reset in-process between settings (the simulator runs in a thread of the checking process)']
-REQUIRED = ['lists', 'settings', 'setting:synchronous', 'setting:pipelined', 'setting:bundled', 'setting:fragment', 'ops:read', 'ops:write', 'ops:failing', 'ops:attribute',
+REQUIRED = ['lists', 'settings', 'setting:synchronous', 'setting:pipelined', 'setting:bundled', 'setting:fragment', 'ops:read', 'ops:write', 'ops:failing', 'ops:attribute', 'ops:attribute-refused-bare-status',
             'bundles:seen', 'bundles:multi-member', 'monitor:paths-in-bundle', 'ops:differing-route-paths', 'strings:parsed', 'strings:write-cast', 'strings:range', 'strings:offset',
             'strings:numeric-path', 'strings:text-values', 'paths:format-parse', 'monitor:model-compare', 'proxy:lists']
 TIMEOUT = {'quick': 300, 'thorough': 2400}
@@ -246,10 +246,19 @@ def run_list(ctx, sim, rng, nops, settings):
     differing = rng.random() < 0.4
     for _ in range(nops):
         r = rng.random()
-        if r < 0.1:
+        if r < 0.18:
             # attribute services as pass-through dict operations
             c, i, a = 0x93, 1, 2
-            if rng.random() < 0.5:
+            k_ = rng.random()
+            if k_ < 0.25:
+                # refused with a bare status (no extended status words): an attribute the instance does not have
+                op = {'method': 'get_attribute_single', 'path': [{'class': c}, {'instance': i}, {'attribute': 77}], 'data_size': 16}
+                ctx.count('ops:attribute-refused-bare-status')
+            elif k_ < 0.4:
+                # ... or a Set Attribute Single whose data does not fill the attribute
+                op = {'method': 'set_attribute_single', 'path': [{'class': c}, {'instance': i}, {'attribute': a}], 'data': [1, 2, 3], 'elements': 3, 'tag_type': 0xC6}
+                ctx.count('ops:attribute-refused-bare-status')
+            elif k_ < 0.7:
                 op = {'method': 'get_attribute_single', 'path': [{'class': c}, {'instance': i}, {'attribute': a}], 'data_size': 16}
             else:
                 vals = gen.typed_values(rng, 'INT', 8)
